@@ -293,6 +293,12 @@ type Case struct {
 
 var Factories = map[string]func() Map{}
 
+// TwinFactories: map types that are built from arguments handed in by the caller. The factory
+// returns two maps built from the SAME arguments and the Set ops that describe their initial
+// content; the second map is the one that is used "in between" - what happens to it must not
+// show in the first.
+var TwinFactories = map[string]func() (Map, Map, []Op){}
+
 const Chk = "omap-sequence"
 
 func init() {
@@ -313,6 +319,13 @@ func RunCase(t run.TB, c Case, everyStep bool) {
 	}
 	impl, m := f(), &Model{}
 	other := f() // a second map of the same type, used in between
+	if tf := TwinFactories[c.Type]; tf != nil {
+		var init []Op
+		impl, other, init = tf()
+		for _, o := range init {
+			Apply(o, nopMap{}, m)
+		}
+	}
 	other.Set(98, "other")
 	keys := []int{0, 1, 2, 3, 4, 5, 6, 7, 99}
 	var kept []keptJSON
@@ -328,9 +341,26 @@ func RunCase(t run.TB, c Case, everyStep bool) {
 				d = fmt.Sprintf("step %d %v: %s", i, o, d)
 				return
 			}
+			// the other map lives on: a key comes, a key goes, the oldest key goes
+			switch i % 3 {
+			case 0:
+				other.Set(97, "x")
+			case 1:
+				other.Delete(97)
+			case 2:
+				first, seen := 0, false
+				other.EachSafe(func(k int, _ string) {
+					if !seen {
+						first, seen = k, true
+					}
+				})
+				if seen {
+					other.Delete(first)
+				}
+			}
 			if everyStep || i == len(c.Ops)-1 {
 				if d = Observe(impl, m, keys); d != "" {
-					d = fmt.Sprintf("after step %d %v: %s", i, o, d)
+					d = fmt.Sprintf("after step %d %v (and changes to another map): %s", i, o, d)
 					return
 				}
 				kept = append(kept, keptJSON{lastJSON, string(lastJSON), i})
@@ -477,11 +507,17 @@ func RandomOp(t *rapid.T) Op {
 // race detector is the main oracle; afterwards Len must equal the number of keys EachSafe sees
 // and every such key must be present.
 func Concurrent(f func() Map, plans [][]Op) string {
-	impl := f()
+	return ConcurrentOn([]Map{f()}, plans)
+}
+
+// ConcurrentOn: the same with several maps, goroutine i works on map i mod len(maps) - maps that
+// were built from the same arguments are maps of their own, their users need no common lock.
+func ConcurrentOn(maps []Map, plans [][]Op) string {
 	var wg sync.WaitGroup
 	var bad atomic.Value
-	for _, plan := range plans {
+	for i, plan := range plans {
 		plan := plan
+		impl := maps[i%len(maps)]
 		wg.Add(1)
 		go func() {
 			defer wg.Done()
@@ -513,6 +549,15 @@ func Concurrent(f func() Map, plans [][]Op) string {
 	if v := bad.Load(); v != nil {
 		return fmt.Sprintf("MarshalJSON during concurrent use returned a text that is not JSON: %s", v)
 	}
+	for _, impl := range maps {
+		if d := consistent(impl); d != "" {
+			return d
+		}
+	}
+	return ""
+}
+
+func consistent(impl Map) string {
 	seen := map[int]int{}
 	n := 0
 	impl.EachSafe(func(k int, v string) { seen[k]++; n++ })
